@@ -2,7 +2,9 @@ SPECIFICATION Spec
 CONSTANTS
   NStmt = 3
   Patterns <- PatQuick
-  TailPatterns <- TailQuick
+  TailPatterns <- TailOne
+  JoinOpts <- JoinAll
+  EatOpts <- EatQuick
   LeadModes <- LeadAll
   TrailModes <- TrailAll
 INVARIANTS Accept Reject AllClausesSeen
